@@ -617,6 +617,25 @@ def run_dsl(m, n, labels):
     return [[float(m.evaluate_equation(nm(i), t)) for i in range(n)] for t in labels]
 
 
+def nonfinite_index(*tables):
+    """first grid index at which any side holds a non-finite number (nan / inf: overflow of a growing stock, 0/0 ...).  IEEE non-finite
+    arithmetic is not the property's subject (nan payloads and signs differ between routes): from that index on a case is OUTSIDE the
+    value oracle's domain.  Returns the number of leading rows that are in the domain."""
+    k_min = None
+    for t in tables:
+        if t is None:
+            continue
+        for k, row in enumerate(t):
+            if any(isinstance(x, float) and not math.isfinite(x) for x in row):
+                k_min = k if k_min is None else min(k_min, k)
+                break
+    n = min((len(t) for t in tables if t is not None), default=0)
+    return n if k_min is None else min(n, k_min)
+
+
+OUT_OF_DOMAIN = {"cases": 0, "rows": 0}
+
+
 def first_diff(a, b):
     for k, (ra, rb) in enumerate(zip(a, b)):
         for i, (x, y) in enumerate(zip(ra, rb)):
@@ -753,10 +772,14 @@ def spec_failure(c, ev):
             return ("grid-rows", f"{which}: run_scenarios returns rows at {ev[which + '_index'][:4]}...{ev[which + '_index'][-2:]} "
                                  f"({len(ev[which + '_index'])} rows up to stop), grid has {len(ev['labels'])} points "
                                  f"(dt {dt_name(c.d)}, start {c.start}, stop {c.stop})", {"which": which})
+    streams = [ev[w] for w in ("xm", "xm_down", "dsl", "xm_bptk", "dsl_bptk") if w in ev]
+    K = nonfinite_index(ref, *streams)
+    ev["in_domain_rows"] = K
     for which in ("xm", "xm_down", "dsl", "xm_bptk", "dsl_bptk"):
         if which not in ev:
             continue
-        d = first_diff(ev[which], ref)
+        full = len(ev[which]) == len(ref)
+        d = first_diff(ev[which][:K] if full else ev[which], ref[:K] if full else ref)
         if d is not None:
             k, i, got, want = d
             if has_gf and got is not None and math.isclose(got, want, rel_tol=1e-12, abs_tol=1e-12):
@@ -1394,12 +1417,17 @@ def _run2(chk, scratch, bp):
             continue
         rows = [[(from_fbits(x) if x != "ERR" else None) for x in r.split(",")] for r in reply.split(";")]
         has_gf = any(el_table(e) is not None for e in c.elems)
+        model_rows = [[(x if x is not None else 0.0) for x in r] for r in rows]
+        K = nonfinite_index(model_rows, *[ev[w] for w in ("xm", "dsl", "xm_down", "xm_bptk", "dsl_bptk") if w in ev])
+        if K < len(ev["labels"]):
+            OUT_OF_DOMAIN["cases"] += 1
+            OUT_OF_DOMAIN["rows"] += len(ev["labels"]) - K
         for which in ("xm", "dsl", "xm_down", "xm_bptk", "dsl_bptk"):
             if which not in ev:
                 continue
             a = ev[which]
             bad = None
-            for k in range(len(a)):
+            for k in range(min(len(a), K)):
                 for i in range(len(a[k])):
                     mv = rows[k][i] if k < len(rows) and i < len(rows[k]) else None
                     if mv is None or fbits(mv) != fbits(a[k][i]):
@@ -1417,6 +1445,7 @@ def _run2(chk, scratch, bp):
         if not ev["points_ok"] and corr_fail is None:
             corr_fail = ("gf-points", f"case {ci}: points of a graphical function differ from the XMILE document", {"case": c.to_json()})
     chk.cov["values_compared_with_tolerance_because_of_scipy_interp"] = n_tol
+    chk.cov["out_of_domain_nonfinite"] = dict(OUT_OF_DOMAIN, rule="from the first grid index at which any route (Lean, XMILE, DSL, Python Euler) holds nan/inf, a case is outside the value oracle's domain")
 
     # ---- decide
     if first_fail is not None:
